@@ -30,6 +30,7 @@ func init() {
 		"verifAssert":        apiAssert,
 		"verifCover":         apiCover,
 		"verifTry":           apiTry,
+		"verifShadow":        apiShadow,
 		"verifOutput":        func(fr *frame, a []value) value { return nil },
 		"verifOrderInsertion": func(fr *frame, a []value) value { fr.i.orderFree = false; return nil },
 		"verifOrderDeviations": func(fr *frame, a []value) value {
